@@ -9,6 +9,7 @@ import (
 	"strconv"
 	"strings"
 	"sync"
+	"sync/atomic"
 	"syscall"
 	"time"
 
@@ -49,8 +50,12 @@ func (c *capture) Write(p []byte) (int, error) {
 
 // newClientWithPort opens a NetlinkClient and finds its port id.
 func newClientWithPort(proto int, groups uint32, cap *capture) (*libaudit.NetlinkClient, uint32, error) {
+	return newClientWithBuf(proto, groups, cap, 16+libaudit.AuditMessageMaxLength+64)
+}
+
+func newClientWithBuf(proto int, groups uint32, cap *capture, bufLen int) (*libaudit.NetlinkClient, uint32, error) {
 	before := netlinkPorts(proto)
-	buf := make([]byte, 16+libaudit.AuditMessageMaxLength+64)
+	buf := make([]byte, bufLen)
 	c, err := libaudit.NewNetlinkClient(proto, groups, buf, cap)
 	if err != nil {
 		return nil, 0, err
@@ -168,6 +173,40 @@ func netlinkCasesCmd(args []string) int {
 		}
 		c.Close()
 
+		// ---- read buffers that the kernel's datagram fills exactly, or nearly ------------------
+		for _, l := range []int{0, 1, 4, 100, 1000, 4096, 8970, rng.Intn(8971)} {
+			payload := make([]byte, l)
+			rng.Read(payload)
+			dgram := 36 + (l+3)/4*4 // nlmsghdr + errno + the echoed request, padded to 4
+			for _, spare := range []int{0, 1, 4, 64} {
+				capB := &capture{}
+				cb, bport, err := newClientWithBuf(syscall.NETLINK_ROUTE, 0, capB, dgram+spare)
+				if err != nil {
+					skipped = append(skipped, "route socket: "+err.Error())
+					break
+				}
+				trace++
+				w.write(map[string]interface{}{"k": "reset", "trace": trace})
+				seq, err := cb.Send(syscall.NetlinkMessage{Header: syscall.NlMsghdr{Type: 0x7ff0, Flags: 5}, Data: payload})
+				rec := map[string]interface{}{"k": "send", "g": 0, "type": 0x7ff0, "flags": 5, "pid_in": limbs(0),
+					"payload": bytesOf(payload), "ret": "ok", "ret_seq": limbs(seq), "port": limbs(bport), "full": true, "spare": spare}
+				if err != nil {
+					rec["ret"] = "err"
+				}
+				ret, typ, data, raw := receiveEcho(cb, capB)
+				if ret == "none" {
+					fatal("the kernel did not answer a request of %d bytes", l)
+				}
+				if len(raw) != dgram && ret == "msgs" {
+					fatal("the kernel's reply to a %d byte request has %d bytes, expected %d", l, len(raw), dgram)
+				}
+				rec["echo"], rec["echo_ret"], rec["echo_type"], rec["echo_data"] = bytesOf(raw), ret, typ, bytesOf(data)
+				w.write(rec)
+				stats["exact_buffer_cases"]++
+				cb.Close()
+			}
+		}
+
 		// ---- concurrent senders --------------------------------------------------------------
 		for round := 0; round < *rounds; round++ {
 			cap2 := &capture{}
@@ -185,6 +224,8 @@ func netlinkCasesCmd(args []string) int {
 				ok      bool
 			}
 			results := make([][]sent, *senders)
+			var unexpectedOK atomic.Bool
+			oversize := make([]byte, 4<<20)
 			var wg sync.WaitGroup
 			start := make(chan struct{})
 			for g := 0; g < *senders; g++ {
@@ -194,6 +235,13 @@ func netlinkCasesCmd(args []string) int {
 					<-start
 					for i := 0; i < *perSender; i++ {
 						payload := bytes.Repeat([]byte{byte(g + 1), byte(i), byte(round)}, 1+(g*7+i)%20)
+						if round%2 == 1 && g < 2 && i%2 == 1 {
+							// a send the kernel refuses (larger than the socket's send buffer) among the others
+							if _, err := cc.Send(syscall.NetlinkMessage{Header: syscall.NlMsghdr{Type: 0x7ff0, Flags: 5}, Data: oversize}); err == nil {
+								unexpectedOK.Store(true)
+							}
+							continue
+						}
 						seq, err := cc.Send(syscall.NetlinkMessage{Header: syscall.NlMsghdr{Type: 0x7ff0, Flags: 5}, Data: payload})
 						results[g] = append(results[g], sent{g, i, seq, payload, err == nil})
 					}
@@ -201,15 +249,23 @@ func netlinkCasesCmd(args []string) int {
 			}
 			close(start)
 			wg.Wait()
+			if unexpectedOK.Load() {
+				fatal("a 4 MiB netlink datagram was accepted by the kernel: the refused-send stage needs a larger payload")
+			}
+			nsent := 0
 			for g := range results {
 				for _, s := range results[g] {
+					if !s.ok {
+						fatal("a small concurrent Send failed on an open socket")
+					}
+					nsent++
 					w.write(map[string]interface{}{"k": "csend", "g": s.g + 1, "type": 0x7ff0, "flags": 5, "pid_in": limbs(0),
 						"payload": bytesOf(s.payload), "ret_seq": limbs(s.seq), "port": limbs(cport)})
 					stats["concurrent_sends"]++
 				}
 			}
 			// one echo per send is expected; after the last one (or a lost one) wait only briefly
-			got, want := 0, *senders**perSender
+			got, want := 0, nsent
 			for {
 				wait := 5000
 				if got >= want {
